@@ -76,6 +76,16 @@ var jsonKeyAtoms = []string{
 	"{", "}", "\"a\":", "\"${null}\":", "\"${a.x}\":", "\"${E}\":", "\"${e}\":", "1", "\"x\"", ",", "[", "]", "null",
 }
 
+// escape alphabet: the pieces of backslash escapes inside quoted strings (attribute
+// values, block labels, index keys): the two unicode escape introducers with hex groups
+// on both sides of every boundary of the code space (last before the surrogates, first
+// and last surrogate, first after them, last code point, first beyond it, all ones), too
+// few digits, a non-hex digit, the simple escapes and an unknown one.
+var escapeAtoms = []string{
+	"\\u", "\\U", "d7ff", "d800", "dfff", "e000", "0000", "0010", "0011", "ffff", "00e9", "FFFF",
+	"\\\\", "\\\"", "\\n", "\\x", "g", "a", "$", "{",
+}
+
 func concat(a, b []string) []string {
 	out := make([]string, 0, len(a)+len(b))
 	out = append(out, a...)
